@@ -47,8 +47,13 @@ RULES = {
     "enclosing conditions of the `yield from`) reads the node's graph link (`<node>.graph` / `._graph`) or asks whether the node is still "
     "a member of a container - the consumer may remove the node it has just been given, and the nodes of its subgraphs were present at "
     "the start and were never touched, so they are still yielded",
+    "R11": "an iterator keeps no record of what it has yielded: the classes of the traversal module (and the linked set) hold no collection "
+    "field - bound to `set()` / `{}` / `[]` / dict() in the constructor or in `__iter__` - that `__next__` or a generator of the class "
+    "tests membership in or adds to: a node that was already handed out and is then placed again behind the current position (removed "
+    "and re-appended, moved forward) belongs to the graph at that position and has to be yielded there, exactly as the plain iterator "
+    "of the linked set does - a `_visited` filter makes the recursive iterator disagree with it",
 }
-FLOORS = {"R1": 3, "R2": 4, "R3": 8, "R4": 3, "R5": 1, "R6": 5, "R7": 6, "R8": 1, "R9": 1, "R10": 1}
+FLOORS = {"R1": 3, "R2": 4, "R3": 8, "R4": 3, "R5": 1, "R6": 5, "R7": 6, "R8": 1, "R9": 1, "R10": 1, "R11": 2}
 EXPLANATION = (
     "Checks the structural invariants the tombstone scheme of the doubly linked node list depends on: who writes "
     "which link, control dependence of every yield on the erased test, paired updates of length and map (CFG "
@@ -688,7 +693,49 @@ def rule_r10(ctx):
     ctx.require(n >= 1, "no yield-then-descend loop found in the traversal module")
 
 
+def rule_r11(ctx):
+    n = 0
+    classes = list(ctx.repo.module("onnx_ir.traversal").classes.values()) + [ctx.repo.cls(f"{LL}:DoublyLinkedSet")]
+    for k in classes:
+        # collection fields of the instance
+        coll = {}
+        for f in k.methods.values():
+            if isinstance(f.node, ast.Lambda) or not f.params:
+                continue
+            me = f.params[0]
+            for a in own_nodes(f.node):
+                if isinstance(a, (ast.Assign, ast.AnnAssign)) and getattr(a, "value", None) is not None:
+                    v = a.value
+                    fresh = isinstance(v, (ast.Set, ast.Dict, ast.List)) or (isinstance(v, ast.Call) and dotted_of(v.func) in ("set", "dict", "list", "frozenset") and not v.args)
+                    for t in (a.targets if isinstance(a, ast.Assign) else [a.target]):
+                        if fresh and isinstance(t, ast.Attribute) and norm(t.value) == me:
+                            coll[t.attr] = f
+        for f in k.methods.values():
+            if isinstance(f.node, ast.Lambda) or not f.params:
+                continue
+            is_iter = f.name in ("__next__", "__iter__", "__reversed__") or any(isinstance(y, (ast.Yield, ast.YieldFrom)) for y in own_nodes(f.node))
+            if not is_iter:
+                continue
+            n += 1
+            me = f.params[0]
+            bad = None
+            for x in own_nodes(f.node):
+                if isinstance(x, ast.Compare) and any(isinstance(o, (ast.In, ast.NotIn)) for o in x.ops) and any(
+                        isinstance(y, ast.Attribute) and norm(y.value) == me and y.attr in coll for c_ in x.comparators for y in ast.walk(c_)):
+                    # the id→box map of the linked set answers membership of the *current* contents: it is maintained by every primitive (R3 / R6)
+                    if k.name == "DoublyLinkedSet":
+                        continue
+                    bad = bad or x
+            ctx.check("R11", f"{f.local}: the iteration consults no record of earlier yields", bad is None, f, bad if bad is not None else f.node,
+                      f"`{norm(bad)[:60] if bad is not None else ''}` tests a collection the iterator fills as it goes: a node that was yielded, removed and appended again (or moved "
+                      "behind the current position) while the iterator was suspended is part of the graph there and must be yielded there - the filter drops it, and the recursive "
+                      "iterator no longer agrees with iter(graph) for the same edits",
+                      how="collection fields bound in the constructor / __iter__ of the iterator classes × membership tests in __next__ and the generators", construct="iterator filters on its own history")
+    ctx.require(n >= 2, f"only {n} iterating methods found in the traversal module / linked set")
+
+
 def run(ctx):
+    rule_r11(ctx)
     rule_r10(ctx)
     rule_r9(ctx)
     rule_r5(ctx)
